@@ -52,6 +52,30 @@ func (c *Ctx) detachedNotifyCtx(f *Func, ctxArg ast.Expr, ctxParam types.Object)
 }
 
 func rulesC04(c *Ctx) {
+	c.Rule("R-C04-11", "a cancellation notice is not left waiting for the write lock only to be discarded: ioConn.Write looks at its context before it queues for writeMu (checked afterwards, a notice that waited behind a stalled write longer than its own deadline is dropped although the connection has recovered, and the peer's handler is never cancelled)", func() {
+		iw := c.Fn(pM, "ioConn", "Write")
+		ctxP := iw.CtxParam()
+		c.Need(ctxP != nil, "ioConn.Write: ctx parameter")
+		n := 0
+		ast.Inspect(iw.Body, func(x ast.Node) bool {
+			u, ok := x.(*ast.UnaryExpr)
+			if !ok || u.Op != token.ARROW {
+				return true
+			}
+			ce, isC := ast.Unparen(u.X).(*ast.CallExpr)
+			if !isC {
+				return true
+			}
+			sel, isS := ast.Unparen(ce.Fun).(*ast.SelectorExpr)
+			if !isS || sel.Sel.Name != "Done" || iw.ObjOf(sel.X) != types.Object(ctxP) {
+				return true
+			}
+			n++
+			c.Check(!iw.heldLocal(u)["ioConn.writeMu"], "ioConn.Write:context-checked-before-the-lock", iw, u, "the <-ctx.Done() test runs without writeMu held")
+			return true
+		})
+		c.Pin("ioConn.Write context tests", n, 1)
+	})
 	c.Import("R-C04-10", "a cancelled write is told from a broken writer by errors.Is against the sentinel as target (ErrRejected, context errors)", "C02", "R-C02-13", nil)
 	retireObj := c.FnObj(pJ, "Connection", "Retire")
 	notifyObj := c.FnObj(pJ, "Connection", "Notify")
